@@ -178,11 +178,23 @@ func (x *Unit) evalBuiltin(st *State, call *ast.CallExpr, name string, n int) []
 			z := x.zero(t)
 			return []Val{{x.u.MkMap(z.Sort, False, IntLit(0), x.u.MapDom(z.T), x.u.MapVal(z.T)), t}}
 		case *types.Chan:
-			_ = tt
 			if len(call.Args) > 1 {
 				x.eval(st, call.Args[1])
 			}
 			r := x.alloc(st)
+			x.u.DeclFun("chantype", "(Int) Int")
+			x.fact(Eq(App(SInt, "chantype", r), IntLit(int64(x.u.TypeID(tt.Elem())))))
+			// a new channel is open and nothing was sent on it
+			for _, g := range []string{"chanClosed", "chanSent"} {
+				gv := x.ghostGet(st, g)
+				var zv Val
+				if g == "chanClosed" {
+					zv = Val{False, boolT}
+				} else {
+					zv = Val{IntLit(0), intT}
+				}
+				x.writeLV(st, &LV{kind: lvMap, parent: &LV{kind: lvGlobal, key: g, typ: gv.Typ}, idx: r, typ: zv.Typ}, zv)
+			}
 			return []Val{{r, t}}
 		}
 	case "new":
@@ -918,6 +930,7 @@ func (x *Unit) bindNames(b *Block, pc *preparedCall, recvName string) map[string
 			p := sig.Params().At(i)
 			if p.Name() != "" && p.Name() != "_" {
 				names[p.Name()] = pc.args[i]
+				names[p.Name()+"0"] = pc.args[i]
 			}
 			names[fmt.Sprintf("a%d", i)] = pc.args[i]
 		}
